@@ -1,5 +1,6 @@
 // Common helpers of the correspondence harness (C++17, Linux).
 #pragma once
+#include <errno.h>
 #include <stdio.h>
 #include <stdlib.h>
 #include <string.h>
@@ -93,6 +94,26 @@ struct MemFile {
   FILE *openw() { int d = dup(fd); lseek(d, 0, SEEK_SET); return fdopen(d, "wb+"); }
   bytes contents() { struct stat st; fstat(fd, &st); bytes b(st.st_size); if (st.st_size) { ssize_t r = pread(fd, b.data(), b.size(), 0); (void)r; } return b; }
 };
+
+// ---- streams with injected I/O faults (fopencookie): a readable stream over a byte string whose reads fail with EIO once `fail_after`
+// bytes in total have been delivered (seeks allowed), and a writable stream that accepts `limit` bytes and then fails with ENOSPC ----
+struct FaultIn { bytes data; size_t pos = 0; long delivered = 0; long fail_after = -1; long faults = 0; };
+static ssize_t faultin_read(void *c, char *buf, size_t n) { FaultIn *f = (FaultIn *)c;
+  if (f->fail_after >= 0 && f->delivered >= f->fail_after) { f->faults++; errno = EIO; return -1; }
+  size_t avail = f->pos < f->data.size() ? f->data.size() - f->pos : 0; if (n > avail) n = avail;
+  if (f->fail_after >= 0 && f->delivered + (long)n > f->fail_after) n = (size_t)(f->fail_after - f->delivered);
+  if (n) memcpy(buf, f->data.data() + f->pos, n); f->pos += n; f->delivered += (long)n; return (ssize_t)n; }
+static int faultin_seek(void *c, off64_t *off, int whence) { FaultIn *f = (FaultIn *)c; long base = whence == SEEK_SET ? 0 : whence == SEEK_CUR ? (long)f->pos : (long)f->data.size();
+  long np = base + (long)*off; if (np < 0) return -1; f->pos = (size_t)np; *off = np; return 0; }
+static inline FILE *open_fault_in(FaultIn *f) { cookie_io_functions_t io = {faultin_read, NULL, faultin_seek, NULL}; return fopencookie(f, "rb", io); }
+struct FaultOut { bytes data; size_t pos = 0; long limit = -1; long faults = 0; };
+static ssize_t faultout_write(void *c, const char *buf, size_t n) { FaultOut *f = (FaultOut *)c;
+  if (f->limit >= 0 && (long)(f->pos + n) > f->limit) { f->faults++; errno = ENOSPC; return 0; }
+  if (f->pos + n > f->data.size()) f->data.resize(f->pos + n); memcpy(f->data.data() + f->pos, buf, n); f->pos += n; return (ssize_t)n; }
+static int faultout_seek(void *c, off64_t *off, int whence) { FaultOut *f = (FaultOut *)c; long base = whence == SEEK_SET ? 0 : whence == SEEK_CUR ? (long)f->pos : (long)f->data.size();
+  long np = base + (long)*off; if (np < 0) return -1; f->pos = (size_t)np; *off = np; return 0; }
+static ssize_t faultout_read(void *c, char *buf, size_t n) { FaultOut *f = (FaultOut *)c; size_t avail = f->pos < f->data.size() ? f->data.size() - f->pos : 0; if (n > avail) n = avail; if (n) memcpy(buf, f->data.data() + f->pos, n); f->pos += n; return (ssize_t)n; }
+static inline FILE *open_fault_out(FaultOut *f) { cookie_io_functions_t io = {faultout_read, faultout_write, faultout_seek, NULL}; return fopencookie(f, "wb+", io); }
 
 static inline long env_long(const char *name, long dflt) { const char *v = getenv(name); return v && *v ? atol(v) : dflt; }
 static inline bool tier_thorough() { const char *v = getenv("VERIF_TIER"); return v && strcmp(v, "thorough") == 0; }
